@@ -1,0 +1,9 @@
+//go:build !verif
+
+package service
+
+import "sync"
+
+// cacheMutex is the lock type of the replay cache. It is a plain sync.RWMutex; the build tag
+// "verif" replaces it with a wrapper that lets a test scheduler observe lock acquisitions.
+type cacheMutex = sync.RWMutex
